@@ -243,8 +243,6 @@ func runRpm(r *hx.Run, rnd *hx.Rand, cfg hx.Config) error {
 		dir := rnd.Pick("var/lib/rpm", "var/lib/rpm", "usr/lib/sysimage/rpm", "opt/chroot/var/lib/rpm")
 		kind := rnd.Pick("sqlite", "ndb", "ndb", "bdb", "bdb")
 		var ents []ent
-		var inlineNames []string // bdb: headers small enough to sit in the bucket page itself
-		var dbFull []rpmGT       // bdb: every header in page order, the inline ones included
 		switch kind {
 		case "bdb":
 			lay := bdbFreshLayout(rnd, len(blobs))
@@ -266,11 +264,9 @@ func runRpm(r *hx.Run, rnd *hx.Rand, cfg hx.Config) error {
 			var db2 []rpmGT
 			var infos2 []string
 			for k, i := range order {
-				dbFull = append(dbFull, db[i])
 				if inl[k] {
-					inlineNames = append(inlineNames, db[i].p.name)
+					// at most a quarter page: libdb keeps it in the bucket page (/repo fix fecbf23e reads it)
 					r.Count("rpm:bdb:inline-header")
-					continue
 				}
 				db2, infos2 = append(db2, db[i]), append(infos2, infos[i])
 			}
@@ -340,31 +336,6 @@ func runRpm(r *hx.Run, rnd *hx.Rand, cfg hx.Config) error {
 		wit := fmt.Sprintf("%s with headers [%s]", dbName, strings.Join(infos, " "))
 		if len(wit) > 1500 {
 			wit = wit[:1500] + "…"
-		}
-		if len(inlineNames) > 0 && !got.err && !got.panic && len(got.bad) == 0 {
-			// the whole statement: the small headers are packages, too
-			var full []rpmTuple
-			for _, g := range dbFull {
-				if g.p.name != "gpg-pubkey" {
-					full = append(full, g.expected(dbName))
-				}
-			}
-			eq := func(a, b []rpmTuple) bool {
-				if len(a) != len(b) {
-					return false
-				}
-				for i := range a {
-					if a[i] != b[i] {
-						return false
-					}
-				}
-				return true
-			}
-			if !eq(got.tuples, full) && eq(got.tuples, want) {
-				r.Fail("rpm-bdb-inline-header-skipped", fmt.Sprintf("rpm bdb: headers smaller than a quarter page sit in the bucket page itself and are not reported: %v missing from %s", inlineNames, wit))
-				continue
-			}
-			want = full
 		}
 		switch {
 		case got.err || got.panic:
@@ -515,10 +486,8 @@ func runBdbCorpus(r *hx.Run, dir string) {
 			r.Fail("", fmt.Sprintf("rpm bdb: %s (written by libdb): scan fails", filepath.Base(fn)))
 		case len(missing) > 0:
 			r.Fail("", fmt.Sprintf("rpm bdb: %s (written by libdb, %d-byte pages): headers %v are not reported", filepath.Base(fn), ps, missing))
-		case len(missingSmall) > 0 && len(missingSmall) == len(small):
-			r.KnownSeen("rpm-bdb-inline-header-skipped", fmt.Sprintf("%s (written by libdb 5.3, %d-byte pages): the headers of at most %d bytes %v are not reported", filepath.Base(fn), ps, ps/4, missingSmall))
 		case len(missingSmall) > 0:
-			r.Fail("", fmt.Sprintf("rpm bdb: %s (written by libdb, %d-byte pages): some of the small headers are reported, %v are not", filepath.Base(fn), ps, missingSmall))
+			r.Fail("", fmt.Sprintf("rpm bdb: %s (written by libdb 5.3, %d-byte pages): the headers of at most %d bytes (kept in the bucket page itself) %v are not reported", filepath.Base(fn), ps, ps/4, missingSmall))
 		default:
 			r.Count("rpm:bdb:libdb-written:exact")
 		}
